@@ -23,7 +23,8 @@
 
 /* ---- H1: schedule perturbation ---------------------------------------- */
 
-enum { M_OFF, M_JITTER, M_STRAGGLER, M_SLOWTHREAD };
+enum { M_OFF, M_JITTER, M_STRAGGLER, M_SLOWTHREAD, M_HOLDBLOCK };
+static unsigned hold_count;
 
 static int sched_mode = M_OFF;
 static uint64_t sched_seed;
@@ -96,8 +97,17 @@ verif_yield(int site, uint64_t key)
     }
     break;
 
+  case M_HOLDBLOCK:
+    /* Hold back the work on one block (ordinal seed % 3) and nothing else, so
+       that everything behind it piles up: at most the first two compute
+       sections carrying that key are delayed. */
+    if (site == VS_COMPUTE_BEGIN && key == sched_seed % 3u &&
+        __atomic_fetch_add(&hold_count, 1u, __ATOMIC_RELAXED) < 2u)
+      nap(1000u * (sched_arg ? sched_arg : 200u));
+    break;
+
   case M_STRAGGLER:
-    if (site == VS_COMPUTE_BEGIN) {
+    if (site == VS_COMPUTE_BEGIN || site == VS_ATTACH) {
       unsigned n = __atomic_fetch_add(&compute_counter, 1u, __ATOMIC_RELAXED);
       unsigned period = 3 + sched_seed % 5;
 
@@ -301,6 +311,8 @@ verif_init(void)
         sched_mode = M_STRAGGLER;
       else if (strcmp(mode, "slowthread") == 0)
         sched_mode = M_SLOWTHREAD;
+      else if (strcmp(mode, "holdblock") == 0)
+        sched_mode = M_HOLDBLOCK;
     }
   }
 
